@@ -702,6 +702,15 @@ def partial_cond(fxy, allk=False):
     return True
 
 
+def partial_margin(fxy):
+    """1 - the largest squared coherence of any pair of channels: the smallest denominator factor of the partial-coherence formula"""
+    S = herm(fxy)
+    n = S.shape[0]
+    with np.errstate(all='ignore'):
+        c = [np.max(np.abs(S[i, j]) ** 2 / (S[i, i].real * S[j, j].real)) for i in range(n) for j in range(n) if i != j]
+    return 1.0 - max(c) if c and np.all(np.isfinite(c)) else 0.0
+
+
 _SC = {}
 
 
@@ -931,7 +940,9 @@ def judge(sc, R, gain_rng=None):
              ('phase', lambda X_, m_: A_.coherency_phase_spectrum(X_, m_)),
              ('cohbavg', lambda X_, m_: A_.coherence_bavg(X_, lb_, ub_, m_)),
              ('delay', lambda X_, m_: A_.coherency_phase_delay(X_, lb_, ub_, m_))]
-    if nch >= 3 and (sc['kind'] == 'welch' or sc['method'] != 'periodogram_csd'):
+    # (repeat / layout / dtype comparisons of the partial coherence at rtol 1e-10 need a well-conditioned formula: with 1 - |R|^2 near
+    #  1e-6 a different summation order of the transform shows up as 2e-10 — precision of the formula, not a property failure)
+    if nch >= 3 and (sc['kind'] == 'welch' or (sc['method'] != 'periodogram_csd' and partial_margin(fxy) > 1e-3)):
         calls.append(('partial', lambda X_, m_: A_.coherence_partial(X_[:-1], X_[-1], m_)))
     identity_checks(pre, X, calls, mk_, bad)
     dtype_checks(pre, X, calls, mk_, bad, sc.get('hseed', 0))
